@@ -238,10 +238,11 @@ def gen_cases(ctx: Ctx, mult: int = 1, only: T.Optional[T.Set[str]] = None) -> T
             store.append(['base', [nm, None, 1]])
         base = [[nm, None, 1] for nm in rng.sample(bnames, rng.randint(0, min(8, len(bnames))))]
         group('buildopts', [{'store': store, 'base': p} for p in perms(rng, base, V)])
-    for _ in range(n(60, 500)):
-        items = distinct(rng, rng.randint(0, 5), lambda: rstr(rng, 5, 0))
-        group('testdeps', [{'items': items}])
-        group('ldpath', [{'items': ['/b/' + i for i in items]}])
+    for _ in range(n(80, 800)):
+        ids = distinct(rng, rng.randint(0, 5), lambda: (rstr(rng, 5, 0) or 't') + rng.choice(['@exe', '@sta', '@cus']))
+        dirs = distinct(rng, rng.randint(0, 4), lambda: rstr(rng, 4, 0).replace(':', '_') or 'd')
+        deps = [[i, rng.sample(dirs, rng.randint(0, len(dirs)))] for i in ids]
+        group('testser', [{'deps': pd, 'libdirs': pl} for pd, pl in zip(perms(rng, deps, V), perms(rng, dirs, V))])
     for _ in range(n(40, 300)):
         group('depnames', [{'deps': [rng.choice([None, 'zlib', 'threads', rstr(rng, 4, 0) or 'n']) for _ in range(rng.randint(0, 4))]}])
     for _ in range(n(60, 600)):
@@ -271,6 +272,8 @@ def run_worker(cases: T.List[dict], hashseed: str) -> T.List[dict]:
 
 # the unordered-input findings, keyed like the whole-system diffs of the same defect
 KEY_BUILDOPTS = 'intro-buildoptions.json:$[*]:order'
+KEY_TESTDEPS = 'intro-tests.json:$[*].depends[*]:order'
+KEY_LDPATH = 'intro-tests.json:$[*].env.LD_LIBRARY_PATH:value'
 KEY_DEPID = 'intro-targets.json:$[*].dependencies[*]:value'
 KEY_EXCL_FILES = 'intro-install_plan.json:$.install_subdirs.*.exclude_files[*]:order'
 KEY_EXCL_DIRS = 'intro-install_plan.json:$.install_subdirs.*.exclude_dirs[*]:order'
@@ -291,8 +294,8 @@ def oracle_inproc(ctx: Ctx, cases: T.List[dict], results: T.Dict[str, T.List[dic
                 ctx.violation(f'emitter:{c["kind"]}:exception', f'emitter raised {r["impl"][:120]}',
                               {'type': 'inproc', 'cases': [strip_case(c)], 'seeds': [seed]})
                 continue
-            if c['kind'] in ('testdeps', 'ldpath', 'quote', 'optstr'):
-                continue  # tie only: the unordered collection is built by code the worker does not call
+            if c['kind'] in ('quote', 'optstr'):
+                continue  # tie only: no unordered input
             if c['kind'] == 'depnames':
                 if r['out']['first'] != r['out']['again']:
                     ctx.violation(KEY_DEPID, 'the same dependency list gets different names in two constructions '
@@ -318,6 +321,11 @@ def oracle_inproc(ctx: Ctx, cases: T.List[dict], results: T.Dict[str, T.List[dic
             if kind in ('buildopts', 'optsort'):
                 ctx.violation(KEY_BUILDOPTS, 'option rows depend on set iteration / insertion order '
                               '(sorted() with OptionKey.__lt__ does not order keys without subproject)', case)
+            elif kind == 'testser':
+                if m[2][0] != first[2][0]:
+                    ctx.violation(KEY_TESTDEPS, 'test `depends` follows set iteration order', case)
+                if m[2][1] != first[2][1]:
+                    ctx.violation(KEY_LDPATH, 'LD_LIBRARY_PATH of a test follows set iteration order', case)
             elif kind == 'excludes':
                 if m[2][1] != first[2][1]:
                     ctx.violation(KEY_EXCL_FILES, 'list(exclude_files set) follows hash order', case)
@@ -373,7 +381,7 @@ def inproc_layer(ctx: Ctx, cases: T.List[dict], seeds: T.List[str], compare_mode
             ctx.tag('error:' + r['impl'].split(':')[1])
         if a != r['impl']:
             ctx.disagreement({'kind': c['kind'], 'case': strip_case(c), 'hashseed': seed, 'impl': r['impl'][:400], 'model': a[:400]})
-        nontrivial = (c['kind'] in ('sorted', 'buildline', 'envhash', 'cheader', 'optsort', 'buildopts', 'excludes')
+        nontrivial = (c['kind'] in ('sorted', 'buildline', 'envhash', 'cheader', 'optsort', 'buildopts', 'excludes', 'testser')
                       and r['line'] != '' and len(json.dumps(strip_case(c))) > 60) or c['kind'] == 'fs'
         if nontrivial:
             ctx.seen_nontrivial((c['kind'], json.dumps(strip_case(c), sort_keys=True)))
@@ -561,9 +569,9 @@ def system_layer(ctx: Ctx, root0: str) -> T.Callable[[], None]:
     hist = {n: 'none' for n in names}
     others = [n for n in names if not n.startswith('p07')]
     rng.shuffle(others)
-    for n in others[:2]:
+    for n in others[:1]:
         hist[n] = 'roundtrip'
-    for n in others[2:5]:
+    for n in others[1:3]:
         hist[n] = 'wipe'
     for n in names:
         if n.startswith('p07'):
@@ -573,7 +581,7 @@ def system_layer(ctx: Ctx, root0: str) -> T.Callable[[], None]:
         jobs.append((name, ex.submit(run_fixed, name, root0, steps), {}))
     try:
         from . import projgen
-        n = ctx.scale(4, 40)
+        n = ctx.scale(3, 40)
         import random
         for i in range(n):
             sub = random.Random(rng.randint(0, 2**62))
@@ -633,9 +641,11 @@ def run(ctx: Ctx) -> None:
         'NinjaBuild.write, EnvironmentVariables.hash / exe-wrapper name, _dump_c_header) are invariant under permutation of '
         'their unordered inputs and minted ids, that replace_if_different keeps content and mtime of an unchanged file, and that a '
         'no-change reconfigure over the modelled writers is the identity on contents (and on mtimes of files written through '
-        'replace_if_different); for _list_buildoptions, test depends/LD_LIBRARY_PATH, target dependency names, install-plan '
-        'excludes and the in-place pkg-config/depmf writer it proves the negation on a witness plus the partial statement and '
-        'the full statement for the proposed repair. The model is tied to /repo by running the real emitters under several '
+        'replace_if_different, which since 880fde3 includes pkg-config files and depmf.json); _list_buildoptions (OptionKey.__lt__ '
+        'is the strict part of a total order since 8af551c), test depends / LD_LIBRARY_PATH and install-plan excludes (sorted since '
+        '41e7e99) are proved permutation invariant at full strength; for target dependency names (dep<uuid4>) and the unconditional '
+        'writers (intro-*.json via os.replace, compile_commands.json in place) it proves the negation on a witness plus the partial '
+        'statement. The model is tied to /repo by running the real emitters under several '
         'PYTHONHASHSEED values with permuted insertion orders and comparing every answer. That no *other* emitter leaks iteration '
         'order is not provable from a model of part of the code: it is explored by configuring fixed and random projects with '
         'the real `meson setup` under >=4 hash seeds, permuted environment, permuted directory listings, fresh / reconfigured / '
